@@ -10,6 +10,7 @@ import (
 	"go/types"
 	"math/big"
 	"strings"
+	"time"
 
 	"golang.org/x/tools/go/ssa"
 )
@@ -44,6 +45,7 @@ type Engine struct {
 	fpMode    string
 	initDone  map[*ssa.Package]bool
 	initPkgs  map[string]bool
+	deadline  time.Time
 }
 
 type Frame struct {
@@ -487,6 +489,9 @@ func (e *Engine) execRegion(fr *Frame, st *State, env Env, b *ssa.BasicBlock, pr
 				term = in
 			default:
 				e.instrs++
+				if e.instrs&1023 == 0 && !e.deadline.IsZero() && time.Now().After(e.deadline) {
+					panic(unsupported("symbolic execution budget exceeded (%d instructions)", e.instrs))
+				}
 				st = e.step(fr, st, env, in)
 				if st == nil || st.g.IsFalse() {
 					return nil, retAcc
@@ -1635,6 +1640,12 @@ func (e *Engine) builtin(st *State, name string, args []Value, site ssa.Instruct
 		case *StrV:
 			if x.conc {
 				return st, BVConst(int64(len(x.s)), 64)
+			}
+			if x.bytes != nil {
+				return st, BVConst(int64(len(x.bytes)), 64)
+			}
+			if x.lenT != nil {
+				return st, x.lenT
 			}
 		case *MapV:
 			if x.obj == nil {
